@@ -11,11 +11,12 @@ ROLES = {
           "importbind", "g_assign", "g_read", "nl_assign", "nl_read",
           # compound roles
           "param_assign", "param_aug", "assign_rebind_after", "late_bind", "param_walrus", "nl_aug", "g_aug", "fortarget_rebind",
-          "destructure", "assign_in_branch", "walrus_in_comp"],
+          "destructure", "assign_in_branch", "walrus_in_comp", "kwparam_f"],
     "C": ["none", "read", "assign", "aug", "fortarget", "comptarget", "defbind", "importbind", "g_assign", "g_read",
           "nl_assign", "nl_read", "preread_assign", "assign_rebind_after", "destructure", "nl_aug"],
-    "L": ["none", "read", "param", "paramdef", "walrus", "walrus_in_comp", "param_walrus_in_comp"],
-    "G": ["none", "read", "comptarget", "walrus", "comptarget_nested_iter"],
+    "L": ["none", "read", "param", "paramdef", "walrus", "walrus_in_comp", "param_walrus_in_comp",
+          "kwparam", "kwparamdef", "posonlyparam", "varparam", "kwvarparam"],
+    "G": ["none", "read", "comptarget", "walrus", "comptarget_nested_iter", "comptarget_iter_uses", "comptarget_second_iter_uses"],
     "M": ["none", "assign", "aug", "walrus", "fortarget", "comptarget", "defbind", "importbind", "preread_none",
           "assign_rebind_after", "destructure", "walrus_in_comp"],
 }
@@ -40,7 +41,7 @@ def bind_lines(role, sid):
         "none": [], "read": [], "g_read": ["global x"], "nl_read": ["nonlocal x"],
         "assign": ["x = %d" % v], "preread_assign": ['log(%d,"pre",x)' % sid, "x = %d" % v],
         "aug": ["x = %d" % v, "x += 1"], "walrus": ['log(%d,"w",(x := %d))' % (sid, v)],
-        "param": [], "paramdef": [],
+        "param": [], "paramdef": [], "kwparam_f": [], "kwparam": [], "kwparamdef": [], "posonlyparam": [], "varparam": [], "kwvarparam": [],
         "fortarget": ["for x in [%d]:" % v, '    log(%d,"in",x)' % sid],
         "fortarget_rebind": ["for x in [%d, %d]:" % (v, v + 1), "    x = x + 100", '    log(%d,"in",x)' % sid],
         "comptarget": ['log(%d,"c",[x for x in [%d]])' % (sid, v)],
@@ -59,7 +60,10 @@ def bind_lines(role, sid):
 
 
 PARAM_ROLES = {"param": "x", "paramdef": "x=x", "param_assign": "x", "param_aug": "x", "param_walrus": "x",
-               "param_walrus_in_comp": "x"}
+               "param_walrus_in_comp": "x", "kwparam": "*, x", "kwparamdef": "*, x=x", "posonlyparam": "x, /",
+               "varparam": "*x", "kwvarparam": "**x", "kwparam_f": "*, x"}
+CALL_ARGS = {"param": "1", "param_assign": "1", "param_aug": "1", "param_walrus": "1", "param_walrus_in_comp": "1",
+             "kwparam": "x=1", "posonlyparam": "1", "varparam": "1, 2", "kwvarparam": "a=1", "kwparam_f": "x=1"}
 
 
 def reads_after(role):
@@ -99,7 +103,7 @@ def render_scope(kind, role, children, g, indent, name):
                     pass
         body.append('log(%d,"end",0)' % sid)
         L += [p + "    " + b for b in body]
-        arg = "1" if role in PARAM_ROLES and role != "paramdef" else ""
+        arg = CALL_ARGS.get(role, "")
         return L, ["%s%s(%s)" % (p, name, arg)]
     if kind == "C":
         L.append("%sclass %s:" % (p, name))
@@ -132,7 +136,7 @@ def render_scope(kind, role, children, g, indent, name):
             if reads_after(role):
                 parts.append('log(%d,"b%d",x)' % (sid, i))
         parts.append('log(%d,"end",0)' % sid)
-        arg = "1" if role in ("param", "param_walrus_in_comp") else ""
+        arg = CALL_ARGS.get(role, "")
         return ["%s%s = lambda %s: [%s]" % (p, name, params, ", ".join(parts))], ["%s%s(%s)" % (p, name, arg)]
     if kind == "G":
         return [], [p + render_expr(kind, role, children, g)]
@@ -153,7 +157,7 @@ def render_expr(kind, role, children, g):
         for i, (ck, cr, cc) in enumerate(children):
             parts.append(render_expr(ck, cr, cc, g))
         parts.append('log(%d,"end",0)' % sid)
-        arg = "1" if role in ("param", "param_walrus_in_comp") else ""
+        arg = CALL_ARGS.get(role, "")
         return "(lambda %s: [%s])(%s)" % (params, ", ".join(parts), arg)
     if kind == "G":
         parts = []
@@ -166,6 +170,11 @@ def render_expr(kind, role, children, g):
         parts.append('log(%d,"end",0)' % sid)
         if role == "comptarget_nested_iter":
             return "[[%s] for t%d in [%d] for x in [t%d + 1] if log(%d,'f',x)]" % (", ".join(parts), sid, sid * 10 + 1, sid, sid)
+        if role == "comptarget_iter_uses":
+            # the first iterable is evaluated in the enclosing scope: its x is NOT the target
+            return "[[%s] for x in [x, %d]]" % (", ".join(parts), sid * 10 + 1)
+        if role == "comptarget_second_iter_uses":
+            return "[[%s] for t%d in [x] for x in [t%d, x, %d]]" % (", ".join(parts), sid, sid, sid * 10 + 1)
         tgt = "x" if role == "comptarget" else "t%d" % sid
         return "[[%s] for %s in [%d]]" % (", ".join(parts), tgt, sid * 10 + 1)
     raise ValueError(kind)
